@@ -175,6 +175,20 @@ class Exec(object):
             return
         self.obligations.append(Obligation(kind, self.fuc_id, label, line, self.facts + self.pc, goal, self.taken, note=note))
 
+    def close_guard(self, mark, bound=()):
+        """leave a guarded evaluation region: pc[mark] is the guard; whatever was assumed inside (callee postconditions,
+        definitional facts) is kept as a guarded fact instead of being lost"""
+        inner = self.pc[mark + 1:]
+        guard = self.pc[mark] if mark < len(self.pc) else tm.TRUE
+        del self.pc[mark:]
+        for t in inner:
+            f = tm.implies(guard, t)
+            if bound:
+                bs = [v for v in bound if tm.subterms(f, lambda x, v=v: x == v)]
+                if bs:
+                    f = tm.forall(bs, f)
+            self.assume_fact(f)
+
     def assume_fact(self, t):
         if t.is_const():
             if not t.value():
